@@ -55,6 +55,19 @@ def loop {α ρ σ : Type} : List α → σ → (α → σ → Ctl ρ σ) → Ou
     | .brk s' => .done s'
     | .ret r => .ret r
 
+/-- a Go `for cond { body }` that the translator has shown to stop within `fuel` iterations (countdown form
+    `for n > 0 && … { …; n--; … }`, fuel = the value of `n` before the loop): when the fuel is used up the
+    condition is false, so `.done s` is what Go computes there as well -/
+def whileLoop {ρ σ : Type} : Nat → σ → (σ → Bool) → (σ → Ctl ρ σ) → Out ρ σ
+  | 0, s, _, _ => .done s
+  | fuel + 1, s, c, f =>
+    if c s then
+      match f s with
+      | .next s' => whileLoop fuel s' c f
+      | .brk s' => .done s'
+      | .ret r => .ret r
+    else .done s
+
 /-- `lo, lo+1, …` (`n` values) -/
 def rangeFrom (lo : Int) : Nat → List Int
   | 0 => []
